@@ -283,3 +283,32 @@ pub fn check_fuzz_case(case: &Value, obs: &mut Obs) -> Result<(), String> {
         Err(m) => Err(format!("{} (corpus file {})", m, case["file"].as_str().unwrap_or("?"))),
     }
 }
+
+// ------------------------------------------------------------------------------------------------ accumulated state
+
+/// Working-set sweep (shared by the operator-family properties): W hot items touched twice, a new item, the hot set
+/// again, another new item, everything in reverse - each call against the model.  For every W in 1..=max some cache
+/// capacity boundary, eviction or collision path is hit exactly.
+pub fn sweep(w: usize, item: &dyn Fn(usize) -> (Value, Value), obs: &mut Obs) -> Result<(), String> {
+    let mut order: Vec<usize> = (0..w).collect();
+    order.extend(0..w);
+    order.push(w);
+    order.extend(0..=w);
+    order.push(w + 1);
+    order.extend((0..=w + 1).rev());
+    for (i, k) in order.iter().enumerate() {
+        let (rule, data) = item(*k);
+        diff(&rule, &data, obs, TraceMode::Multiset).map_err(|e| format!("call {} of a working-set sweep with {} hot items: {}", i, w, e))?;
+    }
+    Ok(())
+}
+
+pub fn sweep_cases(kinds: u64, max_w: usize) -> Vec<Value> {
+    let mut out = vec![];
+    for kind in 0..kinds {
+        for w in 1..=max_w {
+            out.push(json!({"w": w, "kind": kind}));
+        }
+    }
+    out
+}
